@@ -141,6 +141,10 @@ func (proj *Project) loadIndex() error {
 		} else {
 			deps := make([]string, 0, len(info.Dependencies))
 			for k := range info.Dependencies {
+				// The keys are parsed without an error path when the dependencies are listed.
+				if _, err := label.Parse(k); err != nil {
+					return fmt.Errorf("record of %v: invalid dependency %q: %w", l, k, err)
+				}
 				deps = append(deps, k)
 			}
 			sort.Strings(deps)
